@@ -27,7 +27,7 @@
 (*  lat.star  value substituted for "*".  RFC 3501 reads it in the issuing *)
 (*            client's view (sequence sets) / as the highest UID in the    *)
 (*            mailbox (UID sets); imapmemserver substitutes the server's   *)
-(*            message count / uidNext-1.  C08 constrains the numbers the   *)
+(*            message count / the UID of the last message.  C08 constrains the numbers the   *)
 (*            server SENDS, not which messages "*" selects, so both are    *)
 (*            behaviours of the specification (the harness reports which   *)
 (*            one the code takes).  Numbers other than "*" are always      *)
@@ -135,9 +135,11 @@ StarRfc(s, c) ==
   CASE SetKind(c) = "seq" -> Len(view[s])
     [] SetKind(c) = "uid" -> MaxUidOf(mb[sel[s]].msgs)
     [] OTHER -> 0
+\* (UID sets: since the repair 560f712 imapmemserver substitutes the UID of the last message, which is the RFC's
+\* reading; the two readings only differ for sequence sets)
 StarImpl(s, c) ==
   CASE SetKind(c) = "seq" -> Len(mb[sel[s]].msgs)
-    [] SetKind(c) = "uid" -> mb[sel[s]].next - 1
+    [] SetKind(c) = "uid" -> MaxUidOf(mb[sel[s]].msgs)
     [] OTHER -> 0
 Stars(s, c) == IF SetKind(c) # "none" /\ HasStar(c.set)
                THEN {StarRfc(s, c), StarImpl(s, c)} ELSE {0}
